@@ -16,6 +16,9 @@ TRUST_COMP = [
 ]
 
 
+NODE_FAMILIES = ("tarea", "wtw", "demand", "leak", "land")
+
+
 def run(pid, families, rule, assumptions, extra_trust=(), n_quick=140, n_thorough=1500, maxops=14, extra=None, net_corr=None):
     rep = C.Report(pid)
     rep.trusted = list(C.BASE_TRUST) + TRUST_COMP + list(extra_trust)
@@ -36,11 +39,14 @@ def run(pid, families, rule, assumptions, extra_trust=(), n_quick=140, n_thoroug
         # broken obligation: fall through to the full check
     C.proof_stage(rep, f"props/{pid}.v")
     n = n_thorough if thorough else n_quick
-    if "tarea" in families:
-        import corr_tarea  # noqa: F401
     for fam in families:
-        if fam == "tarea":
-            K.correspondence(rep, fam, n, 8 if not thorough else 14, tag=pid.lower(), maxdigits=30)
+        if fam in NODE_FAMILIES:
+            # node classes on top of the component models (Sewer / QueueGroundwater, works, demand, distribution, land)
+            import importlib
+            import corr_kinds  # noqa: F401
+            importlib.import_module("corr_" + fam)
+            K.correspondence(rep, fam, n, (6 if fam == "land" else 8) if not thorough else (8 if fam == "land" else 14), tag=pid.lower(),
+                             maxdigits=80 if fam == "land" else 30)
             continue
         K.correspondence(rep, fam, n, maxops if not thorough else maxops + 10, tag=pid.lower())
     if net_corr:
@@ -48,7 +54,7 @@ def run(pid, families, rule, assumptions, extra_trust=(), n_quick=140, n_thoroug
         import corr_net  # noqa: F401
         import corr_star  # noqa: F401
         K.correspondence(rep, "net", net_corr[1] if thorough else net_corr[0], 8, tag=pid.lower(), maxdigits=30)
-    seen = M.monitor(rep, pid, [f for f in families if f != "tarea"], n if not thorough else n * 2, maxops if not thorough else maxops + 10)
+    seen = M.monitor(rep, pid, [f for f in families if f not in NODE_FAMILIES], n if not thorough else n * 2, maxops if not thorough else maxops + 10)
     if extra:
         for k, v in (extra(rep, thorough) or {}).items():
             seen.setdefault(k, (v, 'net', {'ops': [], 'cls': 'model'}, -1))
